@@ -125,7 +125,7 @@ pub struct Acc {
 }
 
 /// Segmentation: 0 = one batch; 1 = flush after every command; 2 = batches of 7 with a commit after each.
-pub fn run_graph(dag: &Dag, family: &str, seg: u8, acc: &mut Acc) {
+pub fn run_graph(dag: &Dag, family: &str, seg: u8, class_ok: fn(&str) -> bool, acc: &mut Acc) {
     let cmds: Vec<Cmd> = dag.cmds();
     let n = dag.len();
     let graph = rtlib::replica::graph_id_of(cmds[0].id);
@@ -134,6 +134,9 @@ pub fn run_graph(dag: &Dag, family: &str, seg: u8, acc: &mut Acc) {
     let mut r = MemReplica::new_mem(graph);
     let key = format!("{family} n={n} seg={seg}");
     let mut fail = |acc: &mut Acc, class: &str, msg: String| {
+        if !matches!(class, "panic" | "error" | "observe" | "harness") && !class_ok(class) {
+            return;
+        }
         if acc.violations.len() < 4 {
             acc.violations.push((format!("{class}: {key}"), msg, json!({"family": family, "n": n, "segmentation": seg, "universe": if n <= 40 { dag.describe() } else { format!("{n} nodes") }})));
         }
@@ -260,7 +263,7 @@ pub fn run_graph(dag: &Dag, family: &str, seg: u8, acc: &mut Acc) {
     }
 }
 
-pub fn run_families(rep: &mut Report, flavour_s: bool, thorough: bool) -> Vec<mcx::Value> {
+pub fn run_families(rep: &mut Report, flavour_s: bool, thorough: bool, class_ok: fn(&str) -> bool) -> Vec<mcx::Value> {
     let mut jobs: Vec<(String, Dag, u8)> = Vec::new();
     if flavour_s {
         let (smax, lmax, kmax, dmax) = if thorough { (9, 4, 14, 4) } else { (6, 3, 9, 3) };
@@ -304,7 +307,7 @@ pub fn run_families(rep: &mut Report, flavour_s: bool, thorough: bool) -> Vec<mc
         .par_iter()
         .map(|(name, dag, seg)| {
             let mut acc = Acc::default();
-            run_graph(dag, name, *seg, &mut acc);
+            run_graph(dag, name, *seg, class_ok, &mut acc);
             acc
         })
         .collect();
